@@ -504,6 +504,9 @@ pub struct Spec {
     pub edns: Option<u16>,
     /// An ordinary additional record before the TSIG RR (covered by the MAC).
     pub extra: bool,
+    /// Further ordinary additional records before the TSIG RR (ARCOUNT, TSIG
+    /// RR included, reaches and passes 256: the digest covers ARCOUNT - 1).
+    pub extra_n: usize,
     /// Key name as decompressed; `compress` writes its last label `t` as a
     /// pointer into the QNAME.
     pub key_name: Vec<u8>,
@@ -525,6 +528,9 @@ pub fn base_message(w: &World, s: &Spec) -> Vec<u8> {
     }
     if s.extra {
         b = b.rr(3, &wire::wname("x."), t::A, c::IN, 1, &[192, 0, 2, 99]);
+    }
+    for i in 0..s.extra_n {
+        b = b.rr(3, &wire::wname("x."), t::A, c::IN, 1, &[198, 51, (i >> 8) as u8, i as u8]);
     }
     b.build()
 }
@@ -734,6 +740,7 @@ fn product_family(ctx: &Ctx, w: &World) {
                         orig_id: o.ids.1,
                         edns: o.edns,
                         extra: false,
+                        extra_n: 0,
                         key_name: o.key_name.clone(),
                         compress: o.compress,
                         alg_on_wire: o.alg_on_wire.clone(),
@@ -782,6 +789,7 @@ fn bases(w: &World, th: bool) -> Vec<(usize, Spec, Tp)> {
                                         orig_id: ids.1,
                                         edns,
                                         extra,
+                                        extra_n: 0,
                                         key_name: kn.clone(),
                                         compress,
                                         alg_on_wire: key.alg.wire_name(),
@@ -798,6 +806,37 @@ fn bases(w: &World, th: bool) -> Vec<(usize, Spec, Tp)> {
                         }
                     }
                 }
+            }
+        }
+    }
+    // Requests whose additional section holds several hundred ordinary
+    // records before the TSIG RR: ARCOUNT (TSIG RR included) just below, on
+    // and above 256 and 512.
+    {
+        let key = w.keysets[ks].iter().find(|k| k.name == key1_name()).unwrap();
+        for extra_n in [253usize, 254, 255, 256, 510, 511] {
+            for (edns, tp) in [(None, Tp::Tcp), (Some(1232u16), Tp::Udp)] {
+                v.push((
+                    ks,
+                    Spec {
+                        q: 0,
+                        id: 0x1234,
+                        orig_id: 0x1234,
+                        edns,
+                        extra: false,
+                        extra_n,
+                        key_name: key1_name(),
+                        compress: false,
+                        alg_on_wire: key.alg.wire_name(),
+                        sign_alg: key.alg,
+                        secret: key.secret.clone(),
+                        time_signed: NOW0 + 7,
+                        fudge: 300,
+                        mac_len: key.alg.mac_len(),
+                        corrupt: None,
+                    },
+                    tp,
+                ));
             }
         }
     }
@@ -818,6 +857,11 @@ fn tamper_family(ctx: &Ctx, w: &World) {
         }
         record(l, "tamper-base", &out, || case_json("tamper-base", *ks, &req, NOW0, *tp, spec_json(w, s)));
         for pos in 0..req.len() {
+            // long additional sections: the header, the question, every 97th
+            // octet and the TSIG RR
+            if s.extra_n > 0 && pos >= 40 && pos + 120 < req.len() && pos % 97 != 0 {
+                continue;
+            }
             for &mask in &masks {
                 let mut t = req.clone();
                 t[pos] ^= mask;
@@ -846,6 +890,7 @@ fn structure_family(ctx: &Ctx, w: &World) {
                                 orig_id: 7,
                                 edns,
                                 extra,
+                                extra_n: 0,
                                 key_name: kn.clone(),
                                 compress: false,
                                 alg_on_wire: key.alg.wire_name(),
@@ -958,7 +1003,7 @@ fn finish(ctx: Ctx) -> ! {
     ctx.assume("oracle decisions: RFC 8945 §5.2 order KEY > MAC length > MAC > TIME; unknown key with a disallowed MAC length may be BADKEY or FORMERR; TSIG RR of a MAC-length FORMERR response unconstrained; 'carries a TSIG' only when question+OPT+TSIG fit the size limit (DESIGN §7a), else TC without TSIG and without answer data; requests that are not well-formed single-question messages with valid OPT are out of scope (C01/C02/C08)");
     ctx.finish(
         "exploration",
-        "bounded-exhaustive product of {3 key sets} x {8 key-name presentations incl. case variants, compressed owner, 255-octet, root} x {5 algorithm names incl. mixed case, unknown, 255-octet} x {right, wrong secret} x {questions} x {EDNS} x {UDP, TCP} x {original ID = / != ID} x {(now, time signed, fudge) window-edge triples incl. 48-bit range ends} x {MAC lengths around 0/10/half/full/full+1 (thorough: every length 0..full+1)} x {MAC octet corruption}; plus every single-octet XOR tampering (4 masks quick, all 8 bits + 0xff thorough) of every octet of a menu of valid signed requests; plus TSIG placement/CLASS/TTL variants. Requests signed by the harness's own RFC 8945 signer; each run through Server::handle_message under a virtual clock; oracle = independent decode of the request octets + RFC 8945 section 5.2 decision procedure + independent HMAC verification of the response MAC over (request MAC as transmitted, response with original ID and ARCOUNT-1, response TSIG variables) + independently derived normal answer from the fixture record list",
+        "bounded-exhaustive product of {3 key sets} x {8 key-name presentations incl. case variants, compressed owner, 255-octet, root} x {5 algorithm names incl. mixed case, unknown, 255-octet} x {right, wrong secret} x {questions} x {EDNS} x {UDP, TCP} x {original ID = / != ID} x {(now, time signed, fudge) window-edge triples incl. 48-bit range ends} x {MAC lengths around 0/10/half/full/full+1 (thorough: every length 0..full+1)} x {MAC octet corruption}; plus every single-octet XOR tampering (4 masks quick, all 8 bits + 0xff thorough) of every octet of a menu of valid signed requests (incl. requests with 253-256 and 510-511 ordinary additional records before the TSIG RR, tampered at the header, the question, every 97th octet and the TSIG RR); plus TSIG placement/CLASS/TTL variants. Requests signed by the harness's own RFC 8945 signer; each run through Server::handle_message under a virtual clock; oracle = independent decode of the request octets + RFC 8945 section 5.2 decision procedure + independent HMAC verification of the response MAC over (request MAC as transmitted, response with original ID and ARCOUNT-1, response TSIG variables) + independently derived normal answer from the fixture record list",
         true,
     )
 }
